@@ -34,7 +34,9 @@ def task(draw, d):
   return dict(ms=ms, labels=labels, strategy=strategy,
               beta=draw(st.one_of(st.sampled_from([0, 0.5, 1, 1.0, 2, 10]), st.floats(0, 20, allow_nan=False))),
               min_rate=draw(st.one_of(st.sampled_from([0, 1, 0.0, 1.0, 0.5]), st.floats(0, 1, allow_nan=False))),
-              u=[draw(st.integers(-3, 3)) for _ in range(d)])
+              u=[draw(st.integers(-3, 3)) for _ in range(d)],
+              vdtype=draw(st.sampled_from(['float64', 'float64', 'float32', 'float16'])),
+              jitter=draw(st.integers(0, 3)) == 0)
 
 
 @st.composite
@@ -157,6 +159,11 @@ def check_c16(case, stats):
         continue
     pairs = np.zeros((len(t['ms']), 2, d))
     pairs[:, 1, :] = np.array(t['ms'])[:, None] * u
+    if t.get('jitter'):
+      # generic (non-representable) coordinates, so that lower-precision storage actually rounds
+      jr = np.random.RandomState(len(t['ms']) * 7 + int(abs(t['beta']) * 10) % 13)
+      pairs = pairs + jr.rand(*pairs.shape) * 0.37
+    pairs = pairs.astype(t.get('vdtype', 'float64'))
     y = np.array(t['labels'])
     dist = np.asarray(call('C16/pair_distance/' + name, est.pair_distance, pairs))
     if not np.isfinite(dist).all():
@@ -180,7 +187,7 @@ def check_c16(case, stats):
     if not np.array_equal(pred, np.where(dist <= est.threshold_, 1, -1)):
       raise Violation('C16/predict-vs-threshold/' + name, 'predict disagrees with threshold_ (C04)')
     nt, tag = verify(name, dist, y, est.threshold_, s, t['beta'], t['min_rate'], 'calibrate')
-    stats.case(dict(model=m, task=t), nt, [name, s, tag])
+    stats.case(dict(model=m, task=t), nt, [name, s, tag, 'valid-dtype:' + t.get('vdtype', 'float64')])
 
 
 CHECKS = {'check_c16': check_c16}
